@@ -89,8 +89,19 @@ def parseParam (j : Json) : R (ParamDesc CDT CVal) := do
            base := ← fldStr j "base", value := ← wrapped (← fld j "value"), default := ← wrapped (← fld j "default"),
            needscfg := ← fldBool j "needscfg", hasWrite := ← fldBool j "write", own := ← parsePairs (← fld j "own") }
 
+/-- one entry of the class attribute `accessibles`; an optional (declared, not implemented) one carries its name only -/
+def parseDecl (j : Json) : R (AccDecl CDT CVal) := do
+  let opt := match j.getObjVal? "optional" with
+    | .ok (.bool b) => b
+    | _ => false
+  if opt then
+    return ⟨{ name := ← fldStr j "name", dt := none, limit := none, base := "", value := none, default := none,
+              needscfg := false, hasWrite := false, own := [] }, true⟩
+  else return ⟨← parseParam j, false⟩
+
 def parseClass (j : Json) : R (ClassDesc CDT CVal) := do
-  return ⟨← (← fldArr j "modprops").mapM parseModProp, ← (← fldArr j "params").mapM parseParam, ← fldStrs j "other"⟩
+  let decls ← (← fldArr j "params").mapM parseDecl
+  return ⟨← (← fldArr j "modprops").mapM parseModProp, implemented decls, ← fldStrs j "other"⟩
 
 def parseEntry (j : Json) : R (Entry CVal) := do
   match j.getObjVal? "acc" with
@@ -105,6 +116,45 @@ def parseCfg (j : Json) : R (Cfg CVal) := do
     match ← arr kv with
     | [k, e] => return ((← k.getStr?), (← parseEntry e))
     | _ => throw "bad cfg item"
+
+def parseDslArg (j : Json) : R (DslArg CVal) := do
+  match j.getObjVal? "bare" with
+  | .ok v => return .bare (← parseVal v)
+  | .error _ =>
+    match j.getObjVal? "group" with
+    | .ok ms => return .group (← (← arr ms).mapM (·.getStr?))
+    | .error _ =>
+      let p ← fld j "param"
+      return .param (← wrapped (← fld p "value")) (← parsePairs (← fld p "kw"))
+
+structure Written where
+  descr : CVal
+  args : List (String × DslArg CVal)
+  extra : Cfg CVal            -- entries added after the DSL (`original_id` of a merged-in module)
+
+def parseWritten (j : Json) : R Written := do
+  let args ← (← fldArr j "args").mapM fun kv => do
+    match ← arr kv with
+    | [k, a] => return ((← k.getStr?), (← parseDslArg a))
+    | _ => throw "bad dsl arg"
+  return ⟨← parseVal (← fld j "descr"), args, ← parseCfg (← fld j "extra")⟩
+
+/-- the configuration of a request: a raw dict (array), or a module as WRITTEN in a config file (object).  `spec`: read
+by the specification (`specCfg`), else produced by the model of `Mod.__init__` (`modDict`; `none`: the file does not load) -/
+def parseCfgAny (spec : Bool) (j : Json) : R (Option (Cfg CVal)) := do
+  match j with
+  | .arr _ => return some (← parseCfg j)
+  | _ =>
+    let w ← parseWritten j
+    if spec then return some (specCfg CVal.str w.descr w.args ++ w.extra)
+    else return (modDict CVal.str w.descr w.args).map (· ++ w.extra)
+
+def entryJson : Entry CVal → Json
+  | .prop (.bare v) => Json.mkObj [("bare", valJson v)]
+  | .prop (.dict v) => Json.mkObj [("dict", jopt valJson v)]
+  | .acc items => Json.mkObj [("acc", pairsJson items)]
+
+def cfgJson (c : Cfg CVal) : Json := jarr (c.map fun kv => jarr [Json.str kv.1, entryJson kv.2])
 
 def errJson : CfgErr → Json
   | .badModProp k => Json.mkObj [("k", "badModProp"), ("key", Json.str k)]
@@ -215,23 +265,38 @@ def parseMerged (j : Json) : R (Merged String) := do
 def handle (j : Json) : R Json := do
   let k ← fldStr j "k"
   match k with
+  | "dsl" =>      -- the dict `Mod(...)` builds, per the model of config.py
+    let w ← parseWritten (← fld j "cfg")
+    match modDict CVal.str w.descr w.args with
+    | some d => return Json.mkObj [("loads", Json.bool true), ("cfg", cfgJson d)]
+    | none => return Json.mkObj [("loads", Json.bool false), ("cfg", Json.null)]
   | "apply" =>
-    let c ← parseClass (← fld j "cls"); let cfg ← parseCfg (← fld j "cfg")
+    let c ← parseClass (← fld j "cls")
+    let some cfg ← parseCfgAny false (← fld j "cfg")
+      | return Json.mkObj [("ok", Json.bool false), ("errors", jarr []), ("inst", Json.null), ("loads", Json.bool false)]
     match applyConfig ops c cfg with
     | .ok i => return Json.mkObj [("ok", Json.bool true), ("errors", jarr []),
                                   ("inst", instJson (← parseGroups (← fld j "cls")) i)]
     | .error es => return Json.mkObj [("ok", Json.bool false), ("errors", jarr (es.map errJson)), ("inst", Json.null)]
   | "judge" =>
-    let c ← parseClass (← fld j "cls"); let cfg ← parseCfg (← fld j "cfg"); let o ← parseObs (← fld j "obs")
+    let c ← parseClass (← fld j "cls"); let o ← parseObs (← fld j "obs")
+    let some cfg ← parseCfgAny true (← fld j "cfg") | throw "judge: no cfg"
+    -- the hypotheses of the theorems, checked on what the harness read off the real class / wrote into the file
+    let wok ← match (← fld j "cfg") with
+      | .arr _ => pure true
+      | w => do pure (writtenOkB (← parseWritten w).args)
     return Json.mkObj [("offending", Json.bool (offendingB ops c cfg)),
+                       ("hyp", Json.bool (wellFormedB c && wok)),
                        ("applied", Json.bool (appliedB ops glue c cfg o)),
+                       ("modprops", Json.bool (modPropsB glue c cfg o)),
                        ("writes", Json.bool (writesB ops glue c cfg o)),
                        ("rejected", Json.bool (rejectedB ops c cfg o)),
                        ("accepted", Json.bool (acceptedB ops c cfg o)),
                        ("whole", Json.bool (wholeB o))]
   | "node" =>
     let mods ← (← fldArr j "mods").mapM fun m => do
-      return ((← fldStr m "name"), (← parseClass (← fld m "cls")), (← parseCfg (← fld m "cfg")))
+      let some cfg ← parseCfgAny false (← fld m "cfg") | throw "node: a file does not load"
+      return ((← fldStr m "name"), (← parseClass (← fld m "cls")), cfg)
     let n := createNode ops mods
     return Json.mkObj [("registered", jstrs (n.modules.map (·.1))),
                        ("errors", jarr (n.errors.map fun e => jarr [Json.str e.1, jarr (e.2.map errJson)])),
